@@ -38,7 +38,7 @@ QuickValid(T) ==
       [] OTHER -> Valid(T)
 Seeds(T) == IF Tier = "quick" THEN QuickValid(T) ELSE Valid(T)
 
-EmitRT(x) == \A T \in WireTypes : \A v \in Valid(T) : PrintT(<<"CASE", ToJson([mode |-> "rt", t |-> T, tree |-> v])>>)
+EmitRT(x) == \A T \in WireTypes : \A v \in (IF Tier = "quick" THEN Valid(T) ELSE Valid(T) \cup DeepValid(T)) : PrintT(<<"CASE", ToJson([mode |-> "rt", t |-> T, tree |-> v])>>)
 EmitBig(x) == \A p \in BigValid : PrintT(<<"CASE", ToJson([mode |-> "rt", t |-> p[1], tree |-> p[2]])>>)
 EmitDec(x) == \A T \in WireTypes : \A c \in UNION {Corrupt(v) : v \in Seeds(T)} : PrintT(<<"CASE", ToJson([mode |-> "dec", t |-> T, tree |-> c])>>)
 EmitSmall(x) == \A c \in (IF Tier = "quick" THEN Small1 ELSE Small2) : PrintT(<<"CASE", ToJson([mode |-> "small", t |-> "*", tree |-> c])>>)
